@@ -144,6 +144,7 @@ func TestC14BigSkip(t *testing.T) {
 		kind := kind
 		t.Run(kind, func(t *testing.T) {
 			rapid.Check(t, func(t *rapid.T) {
+				decorrelate(t, kind)
 				c := megaCase{Kind: kind, Seed: rapid.Uint64().Draw(t, "seed"), MarkA: -1, MarkB: -1,
 					Buffer: 40 << 20, N: rapid.SampledFrom([]int{36 << 20, 17<<20 + 3072, 34<<20 + 1}).Draw(t, "n")}
 				blockSize := rapid.SampledFrom([]int{17 << 20, 33 << 20, 16<<20 + 1}).Draw(t, "blockSize")
@@ -212,6 +213,7 @@ func bigSA(t *testing.T, prop string) {
 		kind := kind
 		t.Run(kind, func(t *testing.T) {
 			rapid.Check(t, func(t *rapid.T) {
+				decorrelate(t, kind)
 				c := megaCase{Kind: kind, Seed: rapid.Uint64().Draw(t, "seed"), Buffer: 3<<20 + rapid.SampledFrom([]int{0, 1, 4099}).Draw(t, "bufExtra")}
 				if kind == "OSAP" {
 					c.Buffer = 8<<20 + 65536
